@@ -35,6 +35,7 @@ type mp struct {
 // heuristic - hugepage removal, main-binary offset fix-up - applies); printMaps may list one
 // mapping in adjacent pieces, which the documented adjacent-merge puts together again
 var stdMaps = []mp{
+	{0x200000, 0x300000, 0, "/lib/ld-2.15.so", true}, // the loader, below the main binary
 	{0x400000, 0x500000, 0, "/bin/main", true},
 	{0x600000, 0x601000, 0x1000, "/bin/main.data", false},
 	{0x7f0000100000, 0x7f0000200000, 0, "/lib/liba.so", true},
@@ -70,11 +71,24 @@ func printMaps(r *rand.Rand, sb *strings.Builder, sentinel string) string {
 	if r.Intn(2) == 0 {
 		form = "brief"
 	}
-	for _, m := range stdMaps {
+	// a quarter of the maps are not listed in address order (the pieces of one mapping stay together)
+	order := append([]mp(nil), stdMaps...)
+	shuffled := r.Intn(4) == 0
+	if shuffled {
+		r.Shuffle(len(order), func(i, j int) { order[i], order[j] = order[j], order[i] })
+		form += "+unsorted"
+	}
+	// the huge-page heuristic is documented for a map that begins with the huge-page entry followed
+	// by the main binary: the loader is then listed last
+	huge := form == "proc" && !shuffled && r.Intn(4) == 0
+	if huge {
+		order = append(append([]mp(nil), order[1:]...), order[0])
+	}
+	for _, m := range order {
 		// an executable mapping may be listed in 2-4 adjacent pieces with consecutive offsets
 		// (text remapped onto huge pages, ...): documented to be merged back into one mapping
 		pieces := []mp{m}
-		if m.exec && r.Intn(3) == 0 {
+		if m.exec && r.Intn(3) == 0 && !(huge && m.start == 0x400000) {
 			k := 2 + r.Intn(3)
 			step := ((m.end - m.start) / uint64(k)) &^ 0xfff
 			pieces = nil
@@ -86,7 +100,7 @@ func printMaps(r *rand.Rand, sb *strings.Builder, sentinel string) string {
 				pieces = append(pieces, pc)
 			}
 			form += fmt.Sprintf("+split%d", k)
-		} else if m.start == 0x400000 && form == "proc" && r.Intn(4) == 0 {
+		} else if m.start == 0x400000 && huge {
 			pieces = []mp{{start: m.start, end: m.start + hugeLen, off: 0, file: "/anon_hugepage" + []string{"", " (deleted)"}[r.Intn(2)], exec: true},
 				{start: m.start + hugeLen, end: m.end, off: hugeLen, file: m.file, exec: true}}
 			form += "+hugepage"
@@ -331,7 +345,7 @@ func Count(r *rand.Rand) *Doc {
 	withMaps := r.Intn(3) == 0
 	var sb strings.Builder
 	if r.Intn(3) == 0 {
-		sb.WriteString("# leading comment\n\n")
+		sb.WriteString([]string{"# leading comment\n\n", "   # indented leading comment\n \t \n", "\t\n"}[r.Intn(3)])
 	}
 	type rec struct {
 		n     int64
@@ -352,7 +366,7 @@ func Count(r *rand.Rand) *Doc {
 		}
 		sb.WriteString("\n")
 		if r.Intn(4) == 0 {
-			sb.WriteString("#\tsymbolized line ignored\n\n")
+			sb.WriteString([]string{"#\tsymbolized line ignored\n\n", "  #\tindented, ignored too\n", "   \t\n"}[r.Intn(3)])
 		}
 	}
 	form := ""
@@ -459,7 +473,7 @@ func Thread(r *rand.Rand) *Doc {
 	// the "--- threadz N ---" banner is optional: a document may start with the first thread
 	if r.Intn(4) > 0 {
 		if r.Intn(3) == 0 {
-			sb.WriteString("\n# c\n")
+			sb.WriteString([]string{"\n# c\n", "  \t\n   # indented comment\n", " \n"}[r.Intn(3)])
 		}
 		sb.WriteString("--- threadz 1 ---\n\n")
 	}
